@@ -68,8 +68,10 @@ template <sz R, sz C, class KX, class KY> void strided_matrix_pair(rmat<R, C> co
   {
     // X * Y^T (RxC * CxR) with the transposed operand static, and the transposed view as left operand
     auto const yt = fm::transpose(Y);
-    C14_EQ(rd(X * yt), rmul(a, rtrans(b)), sg + ":product", "X*transpose(Y)");
-    C14_EQ(rd(yt * X), rmul(rtrans(b), a), sg + ":product", "transpose(Y)*X");
+    if constexpr (tall_left_ok(R, C))
+      C14_EQ(rd(X * yt), rmul(a, rtrans(b)), sg + ":product", "X*transpose(Y)");
+    if constexpr (tall_left_ok(C, R))
+      C14_EQ(rd(yt * X), rmul(rtrans(b), a), sg + ":product", "transpose(Y)*X");
   }
   if constexpr (R == C)
   {
